@@ -309,6 +309,16 @@ def run(chk):
             if h[0] in (2, 10) and h[1] == 0:
                 for dl in (ln, 128, 16, 28, 27):
                     add("nrt %s %d" % (hx(b), dl), "nrt:big")
+    # ---- stated lengths around 2^31 / 2^32 / 2^33 (one honest mapping in the harness; a length narrowed to 32 bits, or to a
+    #      signed int, turns these into "too small"): both families, both directions
+    big = [2**31 - 1, 2**31, 2**31 + 27, 2**32 - 1, 2**32, 2**32 + 15, 2**32 + 27, 2**32 + 28, 2**33]
+    for ln in big + [64, 65, 128, 4096, 2**20 + 1, 2**32 + 16]:
+        key = "big-len:%d" % ln if ln in big else "big-len:other"
+        add("tonativebig %s %d" % (v4([10, 1, 2, 3], rport(rng)), ln), key)
+        add("tonativebig %s %d" % (v6(bytes.fromhex("20010db8000000000000000000000001"), rport(rng), ru32(rng), ru32(rng)), ln), key)
+        add("fromnativebig %s %d" % (hx(bytes([2, 0, 0x1f, 0x90, 127, 0, 0, 1]) + bytes(8)), ln), key)
+        add("fromnativebig %s %d" % (hx(bytes([10, 0, 0x1f, 0x90, 4, 3, 2, 1]) + bytes.fromhex("fe80") + bytes(13) + b"\x01" + bytes([9, 0, 0, 0])), ln), key)
+        add("fromnativebig %s %d" % (hx(bytes([1, 0, 1, 2, 3])), ln), key)
     # ---- to native: every destination length 0..40, both families
     s6 = structured_v6(rng)
     for dl in (41, 64, 127, 128, 129, 256, 4096, 65535, 65536, 2**20):
@@ -431,7 +441,7 @@ def run(chk):
         else:
             chk.assumptions.append("network namespaces not available: text creation was not re-run on an IPv4-only host configuration")
     diffrun.conclude(chk, found, corr, thm, proof_ok and driver_ok, detail, "C17 socket address conversions")
-    chk.cov["exhaustive_small_scope"] = {"native_lengths": "0..40 x 15 family heads x 5 fills; 41..100000 (12 lengths incl. 128 = sockaddr_storage) x 4 heads", "tonative_big_dest": "41..2^20 (10 lengths)", "tonative_destlen": "0..40 x 8 addresses",
+    chk.cov["exhaustive_small_scope"] = {"native_lengths": "0..40 x 15 family heads x 5 fills; 41..100000 (12 lengths incl. 128 = sockaddr_storage) x 4 heads", "tonative_big_dest": "41..2^20 (10 lengths)", "stated_lengths_2^31_2^33": "2^31-1, 2^31, 2^31+27, 2^32-1, 2^32, 2^32+15, 2^32+27, 2^32+28, 2^33 x both families x both directions (one MAP_NORESERVE mapping)", "tonative_destlen": "0..40 x 8 addresses",
                                          "ipv4_boundary_octets": n4}
     chk.cov["rule"] = ("op lines (one library call sequence each) grouped 50 to a case; exact-size heap buffers of every length 0..40 for "
                        "from-native, every destination length 0..40 for to-native, IPv4 octets in {0,1,126,127,128,254,255}^4 exhaustively plus %d random "
